@@ -38,6 +38,7 @@ func genCase(seed int64, idx int, o genOpts) *Case {
 	}
 	c.SrcChanNum, c.DstChanNum = nP, nP
 	c.TTInterval = []int{1, 1, 10000}[rnd.Intn(3)]
+	c.MsgPositions = idx%5 == 4
 	c.DelayPermil = []int{0, 250, 500}[rnd.Intn(3)]
 
 	nColl := 1 + rnd.Intn(o.maxColls)
